@@ -250,10 +250,62 @@ func runC18(c *core.Ctx) {
 			c.Sample("substitution", map[string]any{"dictionary": pairs, "valid_names": valid, "layout_steps0": l.Steps[0], "reference_steps0": want.Steps[0]})
 		}
 	}
+	c18Sequences(c)
 	c.Obs("cases_with_effective_substitution", substituted)
 	c.Obs("cases_invalid_name_rejected", errorsSeen)
 	c.Obs("cases_without_effect", unchanged)
 	c18EndToEnd(c)
+}
+
+// c18Sequences: substitution is a function of its arguments only - a dictionary
+// must be handled the same way whatever dictionaries were used before it in the
+// same process (families of dictionaries that look alike when their names and
+// values are glued together).
+func c18Sequences(c *core.Ctx) {
+	fams := [][]map[string]string{
+		{{"A": "x", "B": "y"}, {"A": "xBy"}, {"Ax": "By"}, {"AxB": "y"}, {"A": "x", "B": "y"}},
+		{{"A": "1", "B": "2"}, {"A": "2", "B": "1"}, {"A1": "B2"}, {"A1B": "2"}, {"A": "1B2"}},
+		{{"A": "", "B": "AB"}, {"AB": "AB"}, {"A": "BAB"}, {"B": "AB", "A": ""}},
+		{{"A-1": "v", "x_y": "w"}, {"A-1v": "x_yw"}, {"A-1": "vx_yw"}},
+	}
+	ok := int64(0)
+	for fi, fam := range fams {
+		for _, order := range [][]int{{0, 1, 2, 3, 4}, {4, 3, 2, 1, 0}, {1, 0, 3, 2, 4}, {2, 4, 0, 1, 3}} {
+			for rep := 0; rep < 3; rep++ {
+				for _, di := range order {
+					if di >= len(fam) {
+						continue
+					}
+					d := fam[di]
+					id := fmt.Sprintf("sequence/%d/%v/%d", fi, order, di)
+					if !c.Want(id) {
+						continue
+					}
+					r := c.Rand("c18seq", fi, di)
+					l := c18Layout(r)
+					l.Steps[0].ExpectedCommand = []string{"{A}", "{B}", "{AB}", "{Ax}", "{A1}", "{A-1}", "{x_y}", "x{A}y{B}z", "{A}{B}", "{AxB}", "{A1B}", "{A-1v}"}
+					want := normJSON(refSubstituteLayout(l, d))
+					dd := map[string]string{}
+					for k, v := range d {
+						dd[k] = v
+					}
+					var got intoto.Layout
+					var err error
+					if c.Guard(id, "SubstituteParameters", d, func() { got, err = intoto.SubstituteParameters(l, dd) }) {
+						continue
+					}
+					c.Eval(1)
+					c.Class("sequence", fi, di)
+					if err != nil || normJSON(got) != want {
+						c.Violation("substitution result depends on the dictionaries used earlier in the process", id, map[string]any{"dictionary": d, "family": fam, "order": order, "implementation_command": got.Steps[0].ExpectedCommand, "reference": json.RawMessage(want), "error": errStr(err)})
+					} else {
+						ok++
+					}
+				}
+			}
+		}
+	}
+	c.Obs("sequence_substitutions_equal_to_reference", ok)
 }
 
 // c18EndToEnd: verdict(layout, dict) == verdict(pre-substituted layout, no dict)
@@ -352,7 +404,7 @@ func init() {
 	core.Register(&core.Property{
 		ID:    "C18",
 		Level: "exploration",
-		Rule: "seeded layouts whose rule tokens, command tokens, run tokens and (as decoys) names, readme, expires, pubkeys, keys and certificate constraints are glued from the pieces { } A B _ - x {A} {B} {AB} {{A}} {A}{B} {} {C} {A B} {a} {A-1} {x_y}; dictionaries of 0-6 entries with values that contain markers, braces and empty strings, invalid names (space, dot, brace, empty, newline, slash, $); every dictionary is rebuilt 8x in shuffled insertion order; the whole returned layout is compared with the reference substitution (one left-to-right scan, the four field families only). End-to-end: 9 dictionaries x 2 wrappers x 2 entry points on a chain whose rules/command/run contain markers: verdict and executed inspection command must equal those of the pre-substituted re-signed layout. " +
+		Rule: "seeded layouts whose rule tokens, command tokens, run tokens and (as decoys) names, readme, expires, pubkeys, keys and certificate constraints are glued from the pieces { } A B _ - x {A} {B} {AB} {{A}} {A}{B} {} {C} {A B} {a} {A-1} {x_y}; dictionaries of 0-6 entries with values that contain markers, braces and empty strings, invalid names (space, dot, brace, empty, newline, slash, $); every dictionary is rebuilt 8x in shuffled insertion order; the whole returned layout is compared with the reference substitution (one left-to-right scan, the four field families only). Sequences: families of dictionaries whose glued names/values coincide, applied in 4 orders x 3 rounds in one process. End-to-end: 9 dictionaries x 2 wrappers x 2 entry points on a chain whose rules/command/run contain markers: verdict and executed inspection command must equal those of the pre-substituted re-signed layout. " +
 			"non-trivial = the reference substitution changes the layout; distinct = hash of (layout, dictionary)",
 		Assumptions: []string{"parameter names with non-ASCII letters are not judged (the statement says 'letters')", "nil and empty lists are considered equal when comparing layouts"},
 		Workers:     func(string) int { return 16 },
